@@ -2,9 +2,9 @@
 from props import clihist_common as C
 from props._client_family import *  # noqa
 
-TRANSLATORS = ["http_gate", "sniff", "client_dispatch"]     # client_dispatch: Gen/ClientDispatchGen.v, the dispatch of handle_recv_message read from the source (Model/ClientMgr.v interprets it)
+TRANSLATORS = ["http_gate", "sniff", "client_dispatch", "id_alloc"]     # id_alloc: Gen/IdAllocGen.v, how next_request_id / next_batch_id_range touch the shared id counter (Model/IdAlloc.v, theorems in Props/C12.v); client_dispatch: Gen/ClientDispatchGen.v, the dispatch of handle_recv_message read from the source (Model/ClientMgr.v interprets it)
 MODELS = ["clihist", "httpbatch"]
-BINS = {"release": ["clihist", "httpbatch"]}
+BINS = {"release": ["clihist", "httpbatch", "idmt"]}
 
 RULE = ("histories of the real async client over a scripted mock transport vs the extracted ClientMgr model: random "
         "histories (calls, batches, subscriptions, notifications; answers in any order, duplicated, omitted, foreign ids; "
@@ -26,6 +26,8 @@ def run(ctx):
     hs += C.c12_idseq_histories(ctx.rng, nmax=ctx.scale(3, 4))
     # a batch reply sharing its array with a notification for a full (lagging) subscription
     hs += C.c12_mixed_array_histories(ctx.rng, nmax=ctx.scale(3, 4))
+    # a response whose id is the pending id written in the other JSON kind
+    hs += C.c03_idkind_histories(ctx.rng)
     # serde's SEQUENCE forms: calls / batch entries answered with error objects written `[code,message,data]`, notifications
     # written `["2.0",method,params]` / params `[sid,value]` next to them
     hs += C.seqform_histories(ctx.rng, reps=ctx.scale(3, 40))
@@ -33,3 +35,5 @@ def run(ctx):
     from props import httpbatch_common as HB
     HB.run_single(ctx)
     ctx.exhaustive = False
+    from props import idmt_common
+    idmt_common.run(ctx)      # last (ctx.record draws from ctx.rng): thread-level stress test of the id allocator (ids in flight pairwise distinct), all facts must be zero
